@@ -67,9 +67,13 @@ Fixpoint utf8_valid (s : bytes) : bool :=
 (** strip one trailing LF and then one trailing CR (reader.rs:264) *)
 Definition strip_eol (l : bytes) : bytes :=
   match rev l with
-  | 10 :: 13 :: r => rev r
-  | 10 :: r => rev r
-  | _ => l
+  | x :: r => if x =? LF
+              then match r with
+                   | y :: r' => if y =? CR then rev r' else rev r
+                   | [] => []
+                   end
+              else l
+  | [] => l
   end.
 
 (** the outcome of one [Reader::read_line_raw]: [ROk n text] with [n] the byte count incl.
